@@ -61,6 +61,22 @@ struct SeekReader : sectionReader {   // concrete subclass: the real sectionRead
     void findSectionStart() {}
     const namedLazyInstance nextInstance() { namedLazyInstance i; i.refs = 0; i.name = 0; i.loc.begin = -1; i.loc.instance = 0; return i; }
 };
+// sectionReader::readInstanceNumber() alone on "#<digits> =" ; returns the number (0: none); *pos = stream position afterwards
+__attribute__((noinline)) long w_read_instno(const char *text, long *pos, int *good) {
+    static FrStore fs; static ImStore ms; static ErrorDescriptor e1;
+    std::ifstream file;
+#ifdef VSTD
+    file.__load(text); file.opened = true;
+#else
+    { static char path[64]; snprintf(path, sizeof path, "/var/tmp/verif_c10_%d.p21", (int)getpid()); FILE *fp = fopen(path, "w"); fputs(text, fp); fclose(fp); file.open(path); unlink(path); }
+#endif
+    ms.m._errors = &e1;
+    fs.f._parent = &ms.m; fs.f._fileID = 0;
+    SeekReader sr(&fs.f, file);
+    long id = (long)sr.readInstanceNumber();
+    *good = file.good() ? 1 : 0; *pos = verif_pos(file);
+    return id;
+}
 __attribute__((noinline)) long w_seek_end(const char *text, long *refs, int *nrefs, long *endpos, int *good) {
     static FrStore fs; static ImStore ms; static ErrorDescriptor e1;
     std::ifstream file;
